@@ -95,15 +95,17 @@ class GenV:
 class ForallV:
     """all(body for x in seq) over a symbolic-length sequence: n and a closure k -> z3 Bool"""
 
-    def __init__(self, n, body):
+    def __init__(self, n, body, elem=None):
         self.n = n
         self.body = body
+        self.elem = elem  # optional: k -> the element term (an index expression such as 1 + k for range(1, R))
 
 
 class ExistsV:
-    def __init__(self, n, body):
+    def __init__(self, n, body, elem=None):
         self.n = n
         self.body = body
+        self.elem = elem
 
 
 class OptV:
@@ -262,6 +264,8 @@ class Interp:
         for name, (node, bases) in self.module.classes.items():
             CLASSES.add(name, bases)
         for name in self.schema:
+            if name.startswith("__"):
+                continue
             if name not in CLASSES.ids:
                 CLASSES.add(name, [])
 
@@ -626,7 +630,7 @@ class Interp:
             h = self.heap.copy()
             nr = h.rows_a2(a.field, a.owner.ref)
             lo, hi = self._clamp(a.lo, a.hi, nr)
-            return lambda i, h=h, a=a, lo=lo: h.read_a2(a.field, a.owner.ref, to_z3num(i) + lo if not (isinstance(lo, int) and lo == 0) else to_z3num(i), to_z3num(a.j))
+            return lambda i, h=h, a=a, lo=lo: h.read_a2(a.field, a.owner.ref, simp(to_z3num(i) + lo) if not (isinstance(lo, int) and lo == 0) else to_z3num(i), to_z3num(a.j))
         if isinstance(a, np.ndarray):
             vals = [x.item() if hasattr(x, "item") else x for x in a]
             return self._list_reader(vals)
@@ -1180,15 +1184,16 @@ class Interp:
 
     def read_field(self, o, attr, kind):
         h = self.heap
+        fa = self.fq(o, attr)
         if kind in ("real", "int", "bool", "str"):
-            return h.read_scal(attr, kind, o.ref)
+            return h.read_scal(fa, kind, o.ref)
         if kind.startswith("ref"):
             maybe = kind.startswith("ref?")
             cls = kind.split(":", 1)[1]
-            r = h.read_scal(attr, "ref", o.ref)
+            r = h.read_scal(fa, "ref", o.ref)
             classes = self._expand(cls.split("|"))
-            prev = core.REF_FIELD_CLASSES.get("%s.%s:ref" % (h.tag, attr))
-            core.REF_FIELD_CLASSES["%s.%s:ref" % (h.tag, attr)] = (frozenset(classes | (prev[0] if prev else frozenset())), maybe or (prev[1] if prev else False))
+            prev = core.REF_FIELD_CLASSES.get("%s.%s:ref" % (h.tag, fa))
+            core.REF_FIELD_CLASSES["%s.%s:ref" % (h.tag, fa)] = (frozenset(classes | (prev[0] if prev else frozenset())), maybe or (prev[1] if prev else False))
             key = ("ref", attr, r.get_id())
             if key not in self._seen_elems:
                 self._seen_elems.add(key)
@@ -1203,17 +1208,17 @@ class Interp:
             core.LIST_ELEM_CLASSES[attr] = frozenset(core.LIST_ELEM_CLASSES.get(attr, frozenset()) | classes)
             return SymList(o, attr, classes, None)
         if kind == "arr1":
-            return HeapArr1(o, attr)
+            return HeapArr1(o, fa)
         if kind == "arr2":
-            return HeapArr2(o, attr)
+            return HeapArr2(o, fa)
         if kind == "arr1?":
-            isnone = h.read_scal(attr + "?none", "bool", o.ref)
+            isnone = h.read_scal(fa + "?none", "bool", o.ref)
             if self.branch(isnone):
                 return None
-            return HeapArr1(o, attr)
+            return HeapArr1(o, fa)
         if kind in ("real?", "int?", "str?"):
-            isnone = h.read_scal(attr + "?none", "bool", o.ref)
-            return OptV(isnone, h.read_scal(attr, kind[:-1], o.ref))
+            isnone = h.read_scal(fa + "?none", "bool", o.ref)
+            return OptV(isnone, h.read_scal(fa, kind[:-1], o.ref))
         if kind == "opaque":
             return Opaque("%s.%s" % (o.ref, attr))
         raise Unsupported("field kind %s" % kind)
@@ -1239,6 +1244,7 @@ class Interp:
             g = groups[0]
         kind = g[1]
         h = self.heap
+        fa = self.fq(ObjV(o.ref, g[2]), attr)
         self._log_write(("scal", attr, kind))
         if kind in ("real", "int", "bool", "str"):
             if isinstance(val, str):
@@ -1249,46 +1255,64 @@ class Interp:
                 val = to_real(val)
             elif kind == "int":
                 val = to_z3num(val)
-            h.write_scal(attr, kind, o.ref, val)
+            h.write_scal(fa, kind, o.ref, val)
             return
         if kind.startswith("ref"):
             if val is None:
                 if not kind.startswith("ref?"):
                     raise Unsupported("None stored in non-optional field %s" % attr)
-                h.write_scal(attr, "ref", o.ref, NONE)
+                h.write_scal(fa, "ref", o.ref, NONE)
             elif isinstance(val, ObjV):
-                h.write_scal(attr, "ref", o.ref, val.ref)
+                h.write_scal(fa, "ref", o.ref, val.ref)
             else:
                 raise Unsupported("non-object stored in field %s" % attr)
             return
         if kind in ("arr1", "arr1?"):
             if val is None and kind == "arr1?":
-                h.write_scal(attr + "?none", "bool", o.ref, z3.BoolVal(True))
+                h.write_scal(fa + "?none", "bool", o.ref, z3.BoolVal(True))
                 return
             if is_arr(val):
                 rd = self.arr_reader(val)
                 n = self.arr_len(val)
-                h.set_a1(attr, o.ref, to_z3num(n), lambda j: to_real(rd(j)))
+                h.set_a1(fa, o.ref, to_z3num(n), lambda j: to_real(rd(j)))
                 if kind == "arr1?":
-                    h.write_scal(attr + "?none", "bool", o.ref, z3.BoolVal(False))
+                    h.write_scal(fa + "?none", "bool", o.ref, z3.BoolVal(False))
                 return
             raise Unsupported("non-array stored in array field %s" % attr)
         if kind in ("real?", "int?", "str?"):
             if val is None:
-                h.write_scal(attr + "?none", "bool", o.ref, z3.BoolVal(True))
+                h.write_scal(fa + "?none", "bool", o.ref, z3.BoolVal(True))
             else:
-                h.write_scal(attr + "?none", "bool", o.ref, z3.BoolVal(False))
+                h.write_scal(fa + "?none", "bool", o.ref, z3.BoolVal(False))
                 if kind == "str?":
                     val = str_const(val) if isinstance(val, str) else val
                 elif kind == "real?":
                     val = to_real(val)
                 else:
                     val = to_z3num(val)
-                h.write_scal(attr, kind[:-1], o.ref, val)
+                h.write_scal(fa, kind[:-1], o.ref, val)
             return
         if kind == "opaque":
             return
         raise Unsupported("write to field %s of kind %s" % (attr, kind))
+
+    def fq(self, o, attr):
+        """heap map name of a field: objects of different families (FAMILIES of the schema: Compartment, Link, Parameter, ...)
+        are never the same object, so their fields live in separate maps (no aliasing case analysis between them)"""
+        fams = getattr(self, "families", None)
+        if not fams:
+            return attr
+        found = set()
+        for c in o.classes:
+            f = None
+            for fam in fams:
+                if CLASSES.is_subclass(c, fam):
+                    f = fam
+                    break
+            found.add(f)
+        if len(found) != 1 or None in found:
+            return attr
+        return "%s.%s" % (found.pop(), attr)
 
     def _log_write(self, what):
         if self.write_log is not None:
@@ -1414,7 +1438,7 @@ class Interp:
             lo, hi = self._clamp(sl.start, sl.stop, n)
             rd = self.arr_reader(v)
             ln = simp(to_z3num(hi) - to_z3num(lo)) if (is_z3(hi) or is_z3(lo)) else hi - lo
-            return LArr(ln, lambda i, rd=rd, lo=lo: rd(to_z3num(i) + lo if not (isinstance(lo, int) and lo == 0) else i), dtype=self.arr_dtype(v))
+            return LArr(ln, lambda i, rd=rd, lo=lo: rd(simp(to_z3num(i) + lo) if not (isinstance(lo, int) and lo == 0) else i), dtype=self.arr_dtype(v))
         raise Unsupported("slice of %r" % (v,))
 
     def _sub2_load(self, v, idx, node=None):
